@@ -385,6 +385,10 @@ class ClientDriver(ReorgDriver):
             if self.ensure_connected(c):
                 self.send_query(c, op)
         self._when(op, go)
+        # a storm: the same request repeated at short intervals, so that one of them lands inside a narrow
+        # window (between a block being advanced / backed up in memory and its flush)
+        for i in range(1, op.get('rep', 1)):
+            self._bg(op.get('at', 0.0) + i * op.get('every', 0.25), go)
 
     def send_query(self, c, op):
         m = op['m']
@@ -992,6 +996,19 @@ class StaleFamily(SubsFamily):
                 plan.append(dict(op='fork', depth=rng.choice([n, n, n + 1]), extra=1, ntx=ntx_list(rng, 3),
                                  remine=rng.choice([0.0, 0.5]), at=round(tq + rng.uniform(0.0, 3.0), 2),
                                  seed=rng.getrandbits(32)))
+            if rng.random() < 0.4:
+                # motif: a fork and, all through the time the server needs to back up and re-advance, a storm
+                # of by-height requests for the replaced heights (stale file contents at the same offsets)
+                d = rng.randint(1, 3)
+                tq = round(rng.uniform(0.5, 3.0), 2)
+                plan.append(dict(op='fork', depth=d, extra=rng.choice([0, 1, 1, 2]), ntx=ntx_list(rng, d + 2),
+                                 remine=rng.choice([0.0, 0.5]), at=tq, seed=rng.getrandbits(32)))
+                for _ in range(rng.randint(1, 2)):
+                    plan.append(dict(op='c_query', c=rng.randrange(nclients),
+                                     m=rng.choice(['id_from_pos', 'id_from_pos', 'get_merkle']),
+                                     back=rng.randrange(d + 1), h=0, pos=rng.randrange(4),
+                                     merkle=rng.random() < 0.3, at=tq,
+                                     rep=rng.choice([8, 16, 30]), every=rng.choice([0.05, 0.2, 0.45])))
             plan.append(dict(op='settle'))
         return dict(family=self.fam, knobs=k, plan=plan)
 
